@@ -118,6 +118,14 @@ class Registry:
             return interp.run_body(f, args, kwargs, node)
         self.overrides[key] = impl
 
+    def stub_method(self, key, source):
+        """stand-in body for an ABSTRACT hook of the repository (a method that raises NotImplementedError and is
+        meant to be overridden); listed in the evidence as an assumption"""
+        import ast as _ast
+        fn = _ast.parse(source).body[0]
+        self.stub_src["stubmethod:" + key] = source
+        self.overrides["stubmethod:" + key] = fn
+
     def contract(self, key, **kw):
         c = Contract(key, **kw)
         self.contracts[key] = c
